@@ -5,7 +5,9 @@ from .gen_html import Writer
 SELECTORS = ['a', '.b > c', 'a:hover', '&:not(.x)', '@media (min-width: 100px)', 'a[href="{"]', 'x::before', 'd', 'ul li', '#id.cls',
              '@supports (display: grid) and (not (display: inline-grid))', 'a[title="}"]', "b[data-x='a;b']", '.a,\n.b',
              '@media screen and (max-width:100px)', '&-suffix', 'h1 + h2', '*', 'a:hover:focus', 'li:nth-child(2n+1)', '@font-face',
-             'a /* c */ b', '.x::after', '@include mq($from: mobile)']
+             'a /* c */ b', '.x::after', '@include mq($from: mobile)',
+             # selectors that BEGIN with a colon (the rule starts at the colon)
+             ':root', '::selection', ':hover', '::-webkit-scrollbar', ':not(.a):focus', ':is(a, b) c', '::before']
 NAMES = ['color', '--x', '$v', 'margin-left', 'background', '@w', 'font', '*zoom', '_height', 'filter', 'grid-area']
 AFTER_NAME = [':', ': ', ' : ', ':\n    ', ':\t']
 # value = list of tokens (joined by single blanks); the token list is the C17 ground truth
